@@ -34,16 +34,23 @@ class StepBudget(Exception):
 
 class Item:
     """Synthetic sound Bounded object: range [lb, ub] containing final; the schedule decides which end moves."""
-    def __init__(self, lb, ub, final, policy, tag=0):
+    def __init__(self, lb, ub, final, policy, inf_first=False, tag=0):
         self.lb, self.ub, self.final, self.policy, self.tag = lb, ub, final, policy, tag
         self.steps = 0
         self.widened = False
+        self.unbounded = bool(inf_first)      # reports the unbounded Range() until the first tighten_bounds()
 
     def bounds(self):
         from graphtage.bounds import Range
+        if self.unbounded:
+            return Range()
         return Range(self.lb, self.ub)
 
     def tighten_bounds(self):
+        if self.unbounded:
+            self.unbounded = False
+            self.steps += 1
+            return True
         if self.lb == self.ub:
             return False
         self.steps += 1
@@ -71,7 +78,7 @@ class Item:
         return True
 
     def spec(self):
-        return (self.lb, self.ub, self.final, self.policy)
+        return (self.lb, self.ub, self.final, self.policy, self.unbounded)
 
     def __repr__(self):
         return f"Item[{self.lb},{self.ub}]->{self.final}/{self.policy}"
@@ -91,6 +98,28 @@ def item_types():
 
 def _mk(specs):
     return [Item(*s, tag=i) for i, s in enumerate(specs)]
+
+
+def _cmp_check(specs, fail):
+    """BoundedComparator directly: a < b / a <= b answered consistently with the final costs, for every ordered pair."""
+    from graphtage import bounds as gb
+    import itertools as it
+    for i, j in it.permutations(range(len(specs)), 2):
+        for op in ('<', '<='):
+            items = _mk(specs)
+            a, b = gb.BoundedComparator(items[i]), gb.BoundedComparator(items[j])
+            try:
+                r = (a < b) if op == '<' else (a <= b)
+            except RecursionError:
+                fail('comparator-recursion', f"BoundedComparator {op} recursed without end on items {i},{j}")
+                return
+            fa, fb = items[i].final, items[j].final
+            if (r and fa > fb) or (not r and fa < fb) or (op == '<=' and not r and fa == fb):
+                fail('comparator', f"BoundedComparator(item {i}) {op} BoundedComparator(item {j}) answered {r}; finals {fa} and {fb}")
+                return
+            for x in (items[i], items[j]):
+                if not x.unbounded and not (x.lb <= x.final <= x.ub):
+                    fail('harness', 'synthetic item left its own range')
 
 
 def _check(specs):
@@ -205,6 +234,12 @@ def _check(specs):
         fail('search-nontermination', 'goal_test/remove_best loop exceeded the step budget')
     except Exception as e:
         fail('remove-best-exception:' + type(e).__name__, f"goal_test/remove_best loop raised {type(e).__name__}: {e}")
+    try:
+        _cmp_check(specs, fail)
+    except StepBudget:
+        fail('comparator-nontermination', 'a comparison exceeded the step budget')
+    except Exception as e:
+        fail('comparator-exception:' + type(e).__name__, f"comparison raised {type(e).__name__}: {e}")
     # sort
     try:
         items = _mk(specs)
@@ -232,6 +267,9 @@ def _check(specs):
         items = _mk(specs)
         gb.make_distinct(*items)
         for x, y in itertools.combinations(items, 2):
+            if x.unbounded or y.unbounded:
+                fail('make-distinct', f"make_distinct left {x!r} with an unbounded range")
+                break
             xd, yd = x.lb == x.ub, y.lb == y.ub
             disjoint = x.ub < y.lb or y.ub < x.lb
             if not (disjoint or (xd and yd)):
@@ -262,7 +300,10 @@ def bounded(tier, seed, repo_root):
     n3 = 20000 if tier == 'quick' else 400000
     triples = [tuple(rnd.choice(types) for _ in range(3)) for _ in range(n3)]
     quads = [tuple(rnd.choice(types) for _ in range(4)) for _ in range(n3 // 4)]
-    jobs = colls + triples + quads
+    # items that report the unbounded Range() until their first tighten_bounds() (a sound, merely uninformative start)
+    unb = [tuple(t + (rnd.random() < 0.6,) for t in c) for c in rnd.sample(colls, min(len(colls), 4000 if tier == 'quick' else 40000))]
+    unb += [tuple(t + (rnd.random() < 0.5,) for t in c) for c in triples[:n3 // 10]]
+    jobs = colls + triples + quads + unb
     res = pmap(_check, jobs, repo_root, job_timeout=20, on_timeout=timeout_failure('C17'))
     fails = [f for fs in res for f in fs]
     return [{
